@@ -24,7 +24,7 @@ PY
   git -C /repo worktree remove --force $wt; rm -rf $sc
 }
 export -f one
-ls -d /verif/seeded/C*-[AB] | xargs -P 8 -I{} bash -c "one {} $tmp"
+ls -d /verif/seeded/C*-[A-Z] | xargs -P 8 -I{} bash -c "one {} $tmp"
 python3 - $tmp $out <<'PY'
 import sys,json,glob
 rows=[json.load(open(f)) for f in sorted(glob.glob(sys.argv[1]+'/*.json'))]
